@@ -9,6 +9,7 @@
 -/
 import GV.Eval.RefStmtThm
 import GV.Eval.Cites
+import GV.Generated.Listener
 namespace GV.Props.C20
 open GV.Eval
 
@@ -98,5 +99,20 @@ theorem C20_assign_keeps_inner (P : Params) (line : Nat) (var : String) (mapv : 
     (e : Env) (c : Option Nat) :
     assignCore P line var mapv aop (.err c, e) = (.err c, e) := by
   simp [assignCore]
+
+/-- Every position the listener records in a node — for assignments, expressions, arithmetic
+    expressions, atoms, the three kinds of call, element accesses, `for` and `forRange` — is the line
+    and column of the construct's FIRST token (`ctx.GetStart()`), regenerated from
+    internal/iparser/gengine_parser_listener.go on every run: this is what `lower*` assumes when it
+    copies the line of a reference tree's first token into the node. -/
+theorem C20_positions_from_start_token :
+    GV.Generated.Listener.positions.all (fun p =>
+      (p.2.1 == "LineNum" && p.2.2 == "ctx.GetStart().GetLine()") ||
+      (p.2.1 == "Column" && p.2.2 == "ctx.GetStart().GetColumn()")) = true := by decide
+
+theorem C20_positioned_constructs :
+    (GV.Generated.Listener.positions.filter (fun p => p.2.1 == "LineNum")).map (·.1) =
+      ["ExitAssignment", "ExitExpression", "ExitExpressionAtom", "ExitForRangeStmt", "ExitForStmt", "ExitFunctionCall",
+       "ExitMapVar", "ExitMathExpression", "ExitMethodCall", "ExitThreeLevelCall"] := by decide
 
 end GV.Props.C20
